@@ -90,7 +90,6 @@ NOT_APPLICABLE = {
     'C05': 'every anchor is an AST-to-plan transformation or a join operator over Database/evaluator state: AST walks do not finish in CBMC and the code is outside the Verus subset',
     'C11': 'atomicity is a frame condition over the whole Database through executors, evaluator and triggers; discharging it needs the whole executor inside the verifier',
     'C12': 'two-table history invariant enforced by four executors through evaluator and catalog; no function-sized kernel carries a clause',
-    'C13': 'begin/rollback are two clone()s; the state the property worries about (index registry, caches) is outside their frame - an absent assignment cannot be refuted by a contract on these functions',
     'C16': 'DiskBacked arms need a live BTreeIndex over file I/O inside HashMap-iterating closure-heavy maintenance bodies; cannot be extracted mechanically',
     'C19': 'String/chars()/lines() scanners: Verus has no str iteration theory; CBMC cannot get past 3 symbolic bytes (Date::from_str on 6 bytes = 25 GB)',
     'C22': 'from_str/Display go through str parsing and core::fmt padding: 3 ASCII bytes = 78 s in CBMC, 6 bytes does not finish; no str theory in Verus',
@@ -129,6 +128,18 @@ def _extend(pid, extra):
     c = CLAIMS[pid]
     CLAIMS[pid] = (c[0], c[1] + ' ' + extra, c[2], c[3], c[4])
 
+CLAIMS['C13'] = ('proof',
+    'Kernel contracts over the three places a transaction keeps state, one operation each (that EVERY effect of every statement lives in one of them is not machine-checked): '
+    '(a) TransactionManager (unit X-sp, real code): BEGIN snapshots the catalog and every table AS THEY ARE with an empty savepoint stack and change log, a nested BEGIN is refused and changes nothing; '
+    'ROLLBACK puts back EXACTLY that catalog and those tables and ends the transaction; COMMIT only ends it. '
+    '(b) Database (unit K-undo, real code): BEGIN records the definitions of exactly the user-defined indexes registered at that moment; ROLLBACK, after the snapshot is restored, brings the index registry '
+    'back to those definitions (every registered index is one of them, every one of them is registered: indexes created inside the transaction are dropped, dropped ones re-created) and rebuilds the '
+    'user-defined indexes of every indexed table from the restored rows; COMMIT touches neither table contents nor the registry. '
+    '(c) the constraint hash indexes travel inside the table snapshot (Table is cloned with its IndexManager). '
+    'NOT under contract: spatial indexes, query / plan caches, sequences and other state outside catalog, tables and the B-tree index registry; that Clone of Catalog and HashMap<String, Table> copies everything observable (assumed); '
+    'Operations::record_index_definitions (iterator chain, assumed to list exactly the registry); ROLLBACK TO SAVEPOINT does not restore index definitions (observed, DESIGN 9c).',
+    _B_NOTE, 'contract-based deductive verification: Verus on mechanically extracted functions (snapshot / restore as exact postconditions; the index registry as a finite map)', 'DESIGN.md 9c/C13')
+
 CLAIMS['C15'] = ('proof',
     'Kernel contracts, one operation each; the quantifier over HISTORIES is the induction over these operations and is not machine-checked as a whole. '
     '(a) Constraint hash indexes: on the real IndexManager (unit K-index) new makes one empty map per constraint, rebuild makes every map exactly "key -> position of the row with that key", '
@@ -158,10 +169,6 @@ _extend('C07', 'ADDED: group_rows is a partition of the input by key - one group
         'and the columnar pipeline are under contract in unit A-col.')
 _extend('C01', 'ADDED (unit S-setops): apply_set_operation against SQL bag semantics for UNION / INTERSECT / EXCEPT [ALL], per key over the multiplicities of both inputs.')
 
-NOT_APPLICABLE['C13'] = ("begin/rollback are two clone()s of catalog and tables; the state the property worries about lives outside their frame (the CREATE INDEX registry, "
-                         "caches) - an absent assignment cannot be refuted by a contract on these functions. Partially reached under other properties: the CONTENTS of the "
-                         "user-defined indexes are rebuilt after ROLLBACK (fix 3518c656) and the SET of index definitions is brought back to the one recorded at BEGIN "
-                         "(fix 4585fb51) - both unit K-undo rollback_transaction, counted under C15/C02/C14. Other registries outside catalog and tables (spatial indexes, caches) are not examined")
 
 _extend('C10', 'ADDED (units K-rowval, I-probe): RowValidator::validate_column_constraints extracts PRIMARY KEY / UNIQUE / FOREIGN KEY keys in the order of the constraint\'s column list '
         '(the order the indexes use) and enforces NOT NULL; IndexData::contains_key - the CREATE UNIQUE INDEX membership test - normalizes its probe like the stored keys.')
